@@ -45,7 +45,8 @@ def gen(rng, tier):
         for offer in (["h2"], ["http/1.1"], ["h2", "http/1.1"], ["http/1.1", "h2"], None, ["spdy/3"]):
             yield {"family": "tls.alpn", "kind": "tls", "backend": be, "offer": offer, "backends": [be]}
     n = 0
-    kinds = ["alpn_h2", "alpn_h11", "tls_noalpn", "prior", "h2c", "h2c_settings", "h2c_body", "websocket", "plain", "plain_pipelined"]
+    kinds = ["alpn_h2", "alpn_h11", "tls_noalpn", "prior", "h2c", "h2c_settings", "h2c_body", "websocket", "plain", "plain_pipelined",
+             "not_get_with_ws_fields"]
     reps = 4 if tier == "quick" else 12
     for rep in range(reps):
         for kind in kinds:
@@ -78,6 +79,15 @@ def gen(rng, tier):
                 trailing = client_preface(fb, {}) + _h2_req(fb, 3, tags[1], body)
                 reactor = {"kind": "h2", "credit": "auto", "skip_h1_101": True}
                 truth.update(proto="h2c", version="2", expect={tags[0]: 1, tags[1]: 3})
+            elif kind == "not_get_with_ws_fields":
+                # only a GET opens a WebSocket: the same fields on another method are an ordinary HTTP/1.1 request (body and all)
+                m_ = rng.choice([b"POST", b"PUT", b"DELETE", b"OPTIONS"])
+                full = rng.random() < 0.6
+                opening = (m_ + b" /t%d HTTP/1.1\r\nHost: h.example\r\nConnection: Upgrade\r\nUpgrade: websocket\r\n" % tags[0] +
+                           (b"Sec-WebSocket-Key: dGhlIHNhbXBsZSBub25jZQ==\r\nSec-WebSocket-Version: 13\r\n" if full else b"") +
+                           (b"content-length: %d\r\n\r\n%s" % (len(body), body) if body else b"\r\n"))
+                trailing = _h1_req(tags[1])
+                truth.update(proto="h1", version="1.1", expect=[tags[0], tags[1]])
             elif kind == "h2c_body":
                 if rng.random() < 0.5:
                     opening = _h1_req(tags[0], extra=b"Connection: Upgrade, HTTP2-Settings\r\nUpgrade: h2c\r\nHTTP2-Settings: \r\n", body=b"has-a-body")
